@@ -487,9 +487,19 @@ func init() {
 // debugger's write lock) while a command is handled for the suspended thread.
 func init() {
 	cmds := []string{"cont 1 stepout", "cont 1 resume", "cont 1 stepin", "cont 1 stepover", "status", "describe 1", "extract 1 a g1", "inject 1 a 1", "lockstate", "rmbreak v", "break w:2", "describe 2", "cont 2 resume"}
+	type pc struct{ prop, cmd string }
+	var pcs []pc
 	for _, cmd := range cmds {
-		cmd := cmd
-		register(&Scenario{Prop: "C16", Name: "concurrent-" + strings.Replace(cmd, " ", "_", -1), Quick: 1, Thor: 2, FreeQuick: 1, FreeThor: 2,
+		pcs = append(pcs, pc{"C16", cmd})
+		if strings.HasPrefix(cmd, "cont 1 ") {
+			// C15: a suspended thread is released by the next continue command also
+			// while other threads of the same runtime keep running
+			pcs = append(pcs, pc{"C15", cmd})
+		}
+	}
+	for _, x := range pcs {
+		cmd := x.cmd
+		register(&Scenario{Prop: x.prop, Name: "concurrent-" + strings.Replace(cmd, " ", "_", -1), Quick: 1, Thor: 2, FreeQuick: 1, FreeThor: 2,
 			Desc: "thread 1 suspended at a top-level breakpoint, thread 2 running function calls (step-in/out take the debugger's write lock); the command `" + cmd + "` followed by `status` under every schedule within the bound",
 			Make: func() (func(), func(e *vsched.Exec) (string, *vsched.Violation)) {
 				var probs []string
